@@ -40,6 +40,12 @@ INVALID_TEXTS = [
 
 # ---- inputs ------------------------------------------------------------------------------------------
 
+LOOP_FAMILY_SRC = [
+    "def 0 {\n    start(0);\n    if ($C == 1) {\n        x(1);\n    }\n    mid(1);\n    forever {\n        d(1);\n        if ($Z == 2) {\n            break_loop;\n        }\n        e(2);\n    }\n    fin(9);\n    end;\n}\n",
+    "def 0 {\n    start(0);\n    if ($C == 1) {\n        jump @out;\n    }\n    mid(1);\n    forever {\n        d(1);\n        if ($Z == 2) {\n            break_loop;\n        }\n        e(2);\n    }\n    nop(0);\n    @out;\n    fin(9);\n    end;\n}\n",
+    "def 0 {\n    start(0);\n    switch ($C) {\n        case 1:\n            x(1);\n            break;\n        case 2:\n            y(1);\n            break;\n    }\n    while ($Z < 3) {\n        d(1);\n        e(2);\n    }\n    fin(9);\n    end;\n}\n",
+]
+
 
 def cli_json_of(doc: dict) -> dict:
     """The routine set as a docs/cli_api_usage.rst document: no offsets, jump parameters are 1-based
@@ -99,11 +105,30 @@ def make_pool(pool_seed: int, sizes=("small", "small", "medium", "medium", "larg
                 docs.append(d)
     for name, d in rng.sample(ssb.handbuilt(), 2):
         docs.append(d)
-    # siblings: same ops / sizes, other jump targets (what a weakly keyed memo would confuse with the original)
+    # families: same ops / sizes, other jump targets (what a weakly keyed memo would confuse with the original)
+    families = []
     for d in list(docs[:2]):
         sib = ssb.sibling(d, rng)
         if sib is not None:
+            families.append([docs.index(d), len(docs)])
             docs.append(sib)
+    # a loop family: a routine with a branch before a loop, and the same routine with that branch entering the loop body
+    o = sut.compile_exps(LOOP_FAMILY_SRC[rng.randrange(len(LOOP_FAMILY_SRC))])
+    if "ok" in o:
+        base = {"routines": o["ok"]["routines"]}
+        fam = [len(docs)]
+        docs.append(base)
+        for _ in range(2):
+            sib = ssb.sibling(base, rng, mutators=[ssb.m_jump_into_loop])
+            if sib is not None and sib not in docs:
+                fam.append(len(docs))
+                docs.append(sib)
+        families.append(fam)
+    fam = []
+    for d in ssb.second_entry_family():
+        fam.append(len(docs))
+        docs.append(d)
+    families.append(fam)
     # a multi-file project on the VFS, with several scripts at different directory depths that import the same
     # macro files (a result cached for one script must not be handed to another)
     lib = macrolib.gen_lib(rng)
@@ -135,7 +160,7 @@ def make_pool(pool_seed: int, sizes=("small", "small", "medium", "medium", "larg
         o = sut.decompile_ssbs(copy.deepcopy(d))
         if "ok" in o:
             ssbs.append(o["ok"]["text"])
-    return {"texts": texts, "docs": docs, "ssbs": ssbs, "vfs": vfs.dump(), "cli": [cli_json_of(d) for d in docs]}
+    return {"texts": texts, "docs": docs, "ssbs": ssbs, "vfs": vfs.dump(), "cli": [cli_json_of(d) for d in docs], "families": families}
 
 
 # ---- the simulated process ------------------------------------------------------------------------------
@@ -437,6 +462,12 @@ def gen_history(pool: dict, rng: random.Random, knobs: dict) -> list:
     nt, nd, ns = len(pool["texts"]), len(pool["docs"]), len(pool["ssbs"])
     weights = knobs["weights"]
     kinds = [k for k, w in weights.items() for _ in range(w)]
+    fams = pool.get("families") or []
+    family = rng.choice(fams) if fams and rng.random() < 0.35 else None  # this history keeps to one family of look-alike routine sets
+
+    def pick_doc():
+        return rng.choice(family) if family is not None and rng.random() < 0.85 else rng.randrange(nd)
+
     if rng.random() < 0.8:
         ops.append({"k": "A", "mode": rng.choice(["reuse-dead", "reuse-dead", "fresh", "real"])})
     for _ in range(n):
@@ -444,7 +475,7 @@ def gen_history(pool: dict, rng: random.Random, knobs: dict) -> list:
         if k == "C":
             ops.append({"k": "C", "i": rng.randrange(nt), "slot": rng.choice([None, 0, 0, 1])})
         elif k in ("D", "S", "J") and nd:
-            ops.append({"k": k, "j": rng.randrange(nd), "share": rng.random() < 0.5, "hold": rng.random() < 0.15})
+            ops.append({"k": k if family is None or k != "S" else "D", "j": pick_doc(), "share": rng.random() < 0.5, "hold": rng.random() < 0.15})
         elif k == "SC" and ns:
             ops.append({"k": "SC", "i": rng.randrange(ns)})
         elif k == "G":
@@ -468,7 +499,7 @@ def gen_history(pool: dict, rng: random.Random, knobs: dict) -> list:
             ops.append({"k": "RESTART"})
     # faults without workload test nothing: make sure the history ends with real work after the last fault
     if nd:
-        ops.append({"k": "D", "j": rng.randrange(nd), "share": rng.random() < 0.5})
+        ops.append({"k": "D", "j": pick_doc(), "share": rng.random() < 0.5})
     ops.append({"k": "C", "i": rng.randrange(nt), "slot": 0})
     return ops
 
@@ -561,6 +592,17 @@ def run_item(item: dict) -> dict:
         hs = seeds.H(pool_seed, "history", h)
         hrng = seeds.stream(hs, "ops")
         hists.append((hs, gen_history(pool, hrng, history_knobs(hrng))))
+    # pairwise sweep over families of look-alike routine sets under adversarial id() reuse: the earlier call's graphs
+    # are dead and collected, the later call's graphs take their keys (what a memo keyed by id(graph) plus a weak
+    # content key would confuse)
+    srng = seeds.stream(pool_seed, "sweep")
+    pairs = [(a, b) for fam in pool.get("families", []) for a in fam for b in fam if a != b]
+    srng.shuffle(pairs)
+    for a, b in pairs[: item.get("sweep_pairs", 12)]:
+        ops = [{"k": "A", "mode": "reuse-dead"}, {"k": "D", "j": a}, {"k": "G"}, {"k": "D", "j": b}]
+        if srng.random() < 0.3:
+            ops[1:1] = [{"k": "X", "kind": "return", "exc": "KeyboardInterrupt", "frac": srng.random()}]
+        hists.append((seeds.H(pool_seed, "sweep", a, b), ops))
     refs = {}
     counts = {}
     for hs, ops in hists:
